@@ -79,7 +79,7 @@ PLAN["C01"] = other(
     "to write entries verbatim (sorted) with blank filling off and to make a span override the file's span; the object "
     "-> dictionary -> object stages at the two ends of save / open (_tgToDictionary, _dictionaryToTg through the tier "
     "constructors' and addTier's contracts, <= 2 tiers) are proved to return the same span, names in order, tier "
-    "classes, tier spans and entries, raising nothing. "
+    "classes, tier spans and entries, raising nothing; the two text writers equal the format grammar (shared with C02). "
     "Bounded: full save/open round trip through the four formats.",
     "Numbers survive the text codec exactly (proved, all x in [0,1e15]); the whole-file round trip holds on the stated "
     "bounded domain (labels with quotes/newlines/keywords, 9 critical numbers, 4 formats x 2 x 2 flags).",
@@ -89,7 +89,13 @@ PLAN["C02"] = other(
     "README schemas; sizes, quote doubling, partition property, four formats agree; the spec writer/reader pair is "
     "itself checked. Deductive: numeric codec kernel (shared with C01); _fillInBlanks proved to produce an ascending, "
     "gap-free, overlap-free partition of the requested span; _prepTgForSaving (blank filling on, <= 2 interval tiers) "
-    "proved to hand the writers tiers that each tile the file span.",
+    "proved to hand the writers tiers that each tile the file span; the two text writers _tgToShortTextForm and "
+    "_tgToLongTextForm are proved equal, character atom by character atom, to the format grammar in spec/render.py "
+    "(written from Praat's format page) for 0..2 tiers with ANY number of entries: header, span, <exists>, every "
+    "declared size equal to the number of items written, fields in the documented order, items numbered from 1, "
+    "every number printed by numToStr, every name / label passed through escapeQuotes between double quotes (string "
+    "accumulation loops summarised by rule R-STRFOLD; strings are uninterpreted atoms under an associative "
+    "concatenation, so what quote doubling does to the characters stays with the bounded check).",
     "Written files are well-formed and the four formats agree on the stated bounded domain; numbers are printed "
     "decodably (proved kernel).", ["c02_wellformed", "spec_pair_selfcheck"])
 PLAN["C03"] = other(
@@ -197,7 +203,10 @@ PLAN["C19"] = other(
     "modFunc and entry lists of any length; KlattContainerTier.modifySubtiers is proved to do exactly that to every "
     "point tier of the addressed intermediate tier and to leave every other tier, the name lists and the spans "
     "untouched (KeyError for an unknown name; hierarchy of enumerated shape: 0..3 point tiers in the addressed tier, 0 "
-    "or 2 in another); toIntOrFloat returns the same number. "
+    "or 2 in another); toIntOrFloat returns the same number; the writers of KlattGrid point tiers "
+    "(KlattPointTier.getAsText, KlattSubPointTier.getAsText) are proved equal to the grammar in spec/render.py for any "
+    "number of points: declared size = number of points, points numbered from 1, time and value of each point printed "
+    "with repr (all digits), in order. "
     "Bounded: KlattGrid open/save/open (reference file and synthetic grids, 15 modification functions with an "
     "exactly-once counting wrapper) and point objects (all point lists <= 4 over the number set, 3 classes, long and "
     "short forms) against independent readers/writers in /verif/spec.",
@@ -538,4 +547,15 @@ CANARIES = [
      "target": "praatio.data_classes.klattgrid.KlattContainerTier.modifySubtiers",
      "old": "            subpointTier.modifyValues(modFunc)", "new": "            subpointTier.modifyValues(modFunc)\n            subpointTier.modifyValues(modFunc)",
      "config": ["n_addressed=2,n_other=2,tierName=oral"]},
+    {"name": "short-writer-size", "props": ["C02", "C01"], "file": "praatio/utilities/textgrid_io.py",
+     "target": "praatio.utilities.textgrid_io._tgToShortTextForm",
+     "old": "            len(tier[\"entries\"]),\n        )", "new": "            len(tier[\"entries\"]) + 1,\n        )",
+     "config": ["k=1"]},
+    {"name": "long-writer-mark-unescaped", "props": ["C02", "C01"], "file": "praatio/utilities/textgrid_io.py",
+     "target": "praatio.utilities.textgrid_io._tgToLongTextForm",
+     "old": "'mark = \"%s\" \\n' % utils.escapeQuotes(label)", "new": "'mark = \"%s\" \\n' % label",
+     "config": ["k=2"]},
+    {"name": "klatt-writer-value", "props": ["C19"], "file": "praatio/data_classes/klattgrid.py",
+     "target": "praatio.data_classes.klattgrid.KlattSubPointTier.getAsText",
+     "old": "outputList.append(\"        value = %s\" % repr(entry[1]))", "new": "outputList.append(\"        value = %s\" % repr(entry[0]))"},
 ]
